@@ -24,6 +24,7 @@
 -/
 import Cosi.Model.Restart
 import Cosi.Props.C09
+import Cosi.Props.C09Retry
 import Cosi.Spec.Restart
 
 namespace Cosi.C16
@@ -390,6 +391,15 @@ theorem item_retry_backoff (hist : List (Nat × Queue.Outcome)) (k : Nat) :
       Queue.Decision.requeueIn (bounds (base (C09.streak k hist 0))).1
                          (bounds (base (C09.streak k hist 0))).2 :=
   C09.backoff_schedule hist k
+
+/-- **C16, queue item, every failing outcome.** Whatever error value the reconcile of an item
+    returned — plain, a panic, wrapped in a RequeueError with any interval, zero included — after any
+    history the item is requeued (never just released), within a window `[lo, hi]`, `hi ≠ 0`
+    (`C09R.failed_reconcile_is_requeued`; the window is `C09R.failure_window`). -/
+theorem item_retried_whatever_the_error (hist : List (Nat × Queue.Outcome)) (k : Nat) (o : Queue.Outcome)
+    (ho : o.err = .fail) :
+    ∃ lo hi, (Queue.decision (Queue.runOutcomes [] hist) k o).2 = Queue.Decision.requeueIn lo hi ∧ hi ≠ 0 ∧ lo ≤ hi :=
+  C09R.failed_reconcile_is_requeued _ k o ho
 
 /-! ### a restart is followed by a fresh reconcile -/
 
